@@ -133,6 +133,22 @@ func (s *wstate) do(w []string) (out string) {
 		}
 		s.db, s.phase = db, phCreating
 		return "ok"
+	case "recreate":
+		// a retry after a crash: the same file name, the files of the earlier attempt are still there
+		if len(w) != 3 || s.phase != phClosed {
+			return "bad-op"
+		}
+		kl, err := strconv.Atoi(w[1])
+		if err != nil || kl < 0 || kl > 127 || (w[2] != "0" && w[2] != "1") {
+			return "bad-op"
+		}
+		s.klen, s.comp = kl, w[2] == "1"
+		db, _ := blockdb.NewBlockDB(s.file, int8(kl), s.comp)
+		if err := db.Create(); err != nil {
+			return "err"
+		}
+		s.db, s.phase = db, phCreating
+		return "ok"
 	case "write":
 		if len(w) != 4 || s.phase != phCreating {
 			return "bad-op"
@@ -687,7 +703,114 @@ func genLarge(r *rand.Rand, thorough bool) []string {
 	return ops
 }
 
+// genRetry: an attempt to store a block database crashes (the data file is cut at byte k: 0, 1, inside a record, at
+// a record boundary ±1, its full length), then the database is stored AGAIN under the same name — the same records,
+// fewer/shorter ones (the leftover is longer than the new content) or more — saved, reopened, read back.
+func genRetry(r *rand.Rand, thorough bool) []string {
+	klen := 1 + r.Intn(4)
+	comp := r.Intn(3) == 0
+	ops := []string{fmt.Sprintf("new %d %d", klen, b2i(comp))}
+	type kv struct{ k, c, st []byte }
+	mk := func(n int, big bool) []kv {
+		var out []kv
+		seen := map[string]bool{}
+		for len(out) < n {
+			k := randKey(r, klen)
+			if seen[string(k)] {
+				continue
+			}
+			seen[string(k)] = true
+			c := make([]byte, 1+r.Intn(12))
+			if big {
+				c = make([]byte, 20+r.Intn(60))
+			}
+			r.Read(c)
+			st := c
+			if comp {
+				st, _ = zstd.Compress(c)
+			}
+			out = append(out, kv{k, c, st})
+		}
+		return out
+	}
+	first := mk(1+r.Intn(4), r.Intn(2) == 0)
+	var bounds []int
+	total := 0
+	for _, x := range first {
+		ops = append(ops, fmt.Sprintf("write %s %s %s", hx(x.k), hx(x.c), hx(x.st)))
+		total += 4 + len(x.st)
+		bounds = append(bounds, total)
+	}
+	ops = append(ops, "save")
+	// the crash point of the first attempt
+	cut := total
+	switch r.Intn(8) {
+	case 0:
+		cut = 0
+	case 1:
+		cut = 1
+	case 2, 3: // inside a record
+		cut = r.Intn(total + 1)
+	case 4: // a record boundary ± 1
+		cut = bounds[r.Intn(len(bounds))] + r.Intn(3) - 1
+	case 5:
+		cut = 3 // inside the first length prefix
+	}
+	if cut < 0 {
+		cut = 0
+	}
+	if cut > total {
+		cut = total
+	}
+	ops = append(ops, fmt.Sprintf("trunc dat %d", cut))
+	if r.Intn(2) == 0 {
+		ops = append(ops, "rmidx") // the crash came before Save
+	}
+	ops = append(ops, fmt.Sprintf("recreate %d %d", klen, b2i(comp)))
+	var second []kv
+	switch r.Intn(4) {
+	case 0: // the same records again
+		second = first
+	case 1: // fewer and shorter: the leftover reaches beyond the new content
+		second = mk(1, false)
+	case 2:
+		second = append(append([]kv(nil), first...), mk(1+r.Intn(3), true)...)
+	default:
+		second = mk(1+r.Intn(4), r.Intn(2) == 0)
+	}
+	seen := map[string]bool{}
+	var uniq []kv
+	for _, x := range second {
+		if !seen[string(x.k)] {
+			seen[string(x.k)] = true
+			uniq = append(uniq, x)
+		}
+	}
+	for _, x := range uniq {
+		ops = append(ops, fmt.Sprintf("write %s %s %s", hx(x.k), hx(x.c), hx(x.st)))
+	}
+	ops = append(ops, "save", "idx", "dat")
+	if r.Intn(3) == 0 {
+		ops = append(ops, "openmap")
+	} else {
+		ops = append(ops, "open")
+	}
+	ops = append(ops, "readall")
+	for _, x := range uniq {
+		ops = append(ops, "read "+hx(x.k))
+	}
+	for _, x := range first { // keys of the first attempt only: never stored in THIS database
+		if !seen[string(x.k)] && r.Intn(2) == 0 {
+			ops = append(ops, "read "+hx(x.k))
+		}
+	}
+	return ops
+}
+
 func gen(r *rand.Rand, thorough bool, i int) []string {
+	if i%8 == 3 {
+		return genRetry(r, thorough)
+	}
 	if i%8 == 7 {
 		return genStore(r, thorough)
 	}
@@ -846,6 +969,7 @@ func oracle(ops, outs []string) *corr.Violation {
 		datCut    int
 		idxIntact bool
 		idxLen    = -1
+		leftover  bool // the files existed before this store: they may be longer than what it wrote
 		uniform   bool
 		unique    bool
 		opened    bool
@@ -864,6 +988,17 @@ func oracle(ops, outs []string) *corr.Violation {
 			datLen, datCut, idxIntact, uniform, unique, opened = 0, 0, false, true, true, false
 			idxLen = -1
 			judged = klen <= 118
+		case "recreate":
+			if o != "ok" {
+				return mk("recreate-fails", fmt.Sprintf("op %d %q answered %q", i, op, o))
+			}
+			// a new store over whatever the earlier attempt left: only what is written now counts
+			klen, _ = strconv.Atoi(w[1])
+			ref, where, order, keysOrder = map[string]string{}, map[string]ext{}, nil, nil
+			datLen, datCut, idxIntact, uniform, unique, opened = 0, 0, false, true, true, false
+			idxLen = -1
+			judged = klen <= 118
+			leftover = true
 		case "write":
 			if o != "ok" {
 				return mk("write-fails", fmt.Sprintf("op %d %q answered %q", i, op, o))
@@ -987,7 +1122,7 @@ func oracle(ops, outs []string) *corr.Violation {
 				continue
 			}
 			b, _ := unhx(strings.TrimPrefix(o, "file "))
-			if len(b) != 4+len(ref)*(klen+9) {
+			if len(b) != 4+len(ref)*(klen+9) && !(leftover && len(b) > 4+len(ref)*(klen+9)) {
 				return mk("index-size", fmt.Sprintf("op %d: index file has %d bytes for %d keys of length %d", i, len(b), len(ref), klen))
 			}
 			prev := ""
@@ -1057,6 +1192,12 @@ func bigHex(n int, b byte) string { return strings.Repeat(fmt.Sprintf("%02x", b)
 func fixedCases() [][]string {
 	big := func(n int) string { return bigHex(n, 0x61) }
 	return append(fixedSmall(), [][]string{
+		// crash inside the second record, then the same database is stored again under the same name
+		{"new 1 0", "write 05 aabb aabb", "write 06 ccdd ccdd", "save", "trunc dat 9", "rmidx", "recreate 1 0",
+			"write 05 aabb aabb", "write 06 ccdd ccdd", "save", "dat", "open", "readall", "read 05", "read 06"},
+		// the leftover is longer than everything stored now (and an old, longer index file is still there)
+		{"new 1 0", "write 05 aabbccddeeff aabbccddeeff", "write 06 0102030405060708 0102030405060708", "write 07 11 11", "save",
+			"recreate 1 0", "write 09 ee ee", "save", "idx", "dat", "open", "keys", "readall", "read 09", "read 05", "close", "openmap", "readall", "read 09", "read 06"},
 		// the largest record that fits one 4096-byte buffer fill after its length prefix, and the first that does not
 		{"new 1 0", "write 05 " + big(4092) + " " + big(4092), "write 06 " + big(4093) + " " + big(4093), "save", "open", "readall", "read 05", "read 06"},
 		// three records of 1500 bytes: the third crosses the first 4 KiB boundary of the file
